@@ -191,3 +191,12 @@ def gen_paramtable(ctx):
             'Definition param_table : list param := [\n ' + ';\n '.join(coq_row(r) for r in rs) + '\n].\n')
     fw.write_if_changed(fw.COQ / 'Gen' / 'ParamTable.v', text)
     return len(rs)
+
+
+def build_gen(ctx, targets=('Gen/ParamTable.vo',)):
+    """Compile regenerated Gen files (the Props files do not import them, so they are outside their make cone)."""
+    with fw.coq_lock():
+        rc, log = fw.make(list(targets))
+    if rc != 0:
+        ctx.violate('proof', 'gen-build:' + ','.join(targets), 'regenerated table no longer compiles: ' + log[-600:])
+        raise RuntimeError('Gen build failed')
